@@ -6,6 +6,11 @@ ALL = [f"C{i:02d}" for i in range(1, 21)]
 
 # id -> (category, technique, text, note, design_ref)
 CHECKS = {
+    "C18": ("exploration",
+            "bounded-exhaustive enumeration of reward sequences, fitness triples and generation/fitness histories on the real selector and terminations",
+            "Every reward sequence up to depth 5/7 over a 9-value alphabet (0, denormal .. 1e6) is fed to the real SlotMachine with recording and real samplers and the posterior invariants are checked after every prefix; every (initial, best, new) fitness triple over 9 scalars (incl. +-1e308, -0) and 2-objective triples is run through the real DynamicSelective with scripted operators under the virtual clock (rewards read from its telemetry); every (generation, limit), clock read and fitness history of length <= 5/6 is run through MaxGeneration/MaxTime/TargetProximity/MinVariation/Composite against independent arithmetic.",
+            "Finite alphabets; argmax/weighted draw from the raw RNG and are explored over a finite set of streams; MinVariation period mode is not covered.",
+            "DESIGN.md section 5 C18"),
     "C09": ("exploration",
             "bounded-exhaustive enumeration of all pairs/triples over float alphabets on the real comparison operators",
             "Every ordered pair and triple of insertion-cost vectors (length 0..3/4 over {-1,-0,+0,0.5,1,2}) and of solution contexts whose fitness vectors range over a float alphabet (incl. -0, f64::MAX, NaN) is compared with the real InsertionCost operators and real Goal objects (1-3 single layers; dominance layers as the pragmatic reader builds them); order laws, agreement with numeric lexicographic order and the add/sub inverse law are decided on each.",
